@@ -57,6 +57,55 @@ where
     TimesFd::new(u, v, w)
 }
 
+/// Bounds of `a * b` for `a` in `amin..=amax` and `b` in `bmin..=bmax`, whatever the signs.
+fn product_bounds(
+    amin: isize,
+    amax: isize,
+    bmin: isize,
+    bmax: isize,
+) -> std::ops::RangeInclusive<isize> {
+    let corners = [
+        amin.saturating_mul(bmin),
+        amin.saturating_mul(bmax),
+        amax.saturating_mul(bmin),
+        amax.saturating_mul(bmax),
+    ];
+    let lo = corners.iter().copied().min().unwrap();
+    let hi = corners.iter().copied().max().unwrap();
+    lo..=hi
+}
+
+/// Bounds of the integers `q` with `q * d = n` for `n` in `nmin..=nmax` and `d` in
+/// `dmin..=dmax`. When the divisor range contains zero nothing can be concluded and the
+/// current bounds `qmin..=qmax` are returned.
+fn quotient_bounds(
+    nmin: isize,
+    nmax: isize,
+    dmin: isize,
+    dmax: isize,
+    qmin: isize,
+    qmax: isize,
+) -> std::ops::RangeInclusive<isize> {
+    if dmin <= 0 && dmax >= 0 {
+        return qmin..=qmax;
+    }
+    let mut lo = isize::MAX;
+    let mut hi = isize::MIN;
+    for n in [nmin, nmax].iter().copied() {
+        for d in [dmin, dmax].iter().copied() {
+            let q = n.checked_div(d).unwrap_or(isize::MAX);
+            let exact = n.checked_rem(d).unwrap_or(0) == 0;
+            let same_sign = (n < 0) == (d < 0);
+            // round down for the lower bound, up for the upper bound
+            let floor = if !exact && !same_sign { q.saturating_sub(1) } else { q };
+            let ceil = if !exact && same_sign { q.saturating_add(1) } else { q };
+            lo = lo.min(floor);
+            hi = hi.max(ceil);
+        }
+    }
+    lo..=hi
+}
+
 #[derive(Derivative)]
 #[derivative(Debug(bound = "U: User"))]
 pub struct TimesFdConstraint<U, E>
@@ -164,21 +213,19 @@ where
                     .process_domain(
                         &wwalk,
                         Rc::new(FiniteDomain::from(
-                            umin.saturating_mul(vmin)..=umax.saturating_mul(vmax),
+                            product_bounds(umin, umax, vmin, vmax),
                         )),
                     )?
                     .process_domain(
                         &uwalk,
                         Rc::new(FiniteDomain::from(
-                            wmin.checked_div(vmax).unwrap_or(umin)
-                                ..=wmax.checked_div(vmin).unwrap_or(umax),
+                            quotient_bounds(wmin, wmax, vmin, vmax, umin, umax),
                         )),
                     )?
                     .process_domain(
                         &vwalk,
                         Rc::new(FiniteDomain::from(
-                            wmin.checked_div(umax).unwrap_or(vmin)
-                                ..=wmax.checked_div(umin).unwrap_or(vmax),
+                            quotient_bounds(wmin, wmax, umin, umax, vmin, vmax),
                         )),
                     )
             }
